@@ -98,6 +98,12 @@ class Normalizer(ast.NodeTransformer):
         if isinstance(node.func, ast.Name) and node.func.id == 'getattr' and len(node.args) == 2 and not node.keywords and isinstance(node.args[1], ast.Constant) \
                 and isinstance(node.args[1].value, str) and node.args[1].value.isidentifier():
             return ast.copy_location(ast.Attribute(value=node.args[0], attr=node.args[1].value, ctx=ast.Load()), node)
+        # N40: list(<generator expression>) is the list comprehension, set(..) the set comprehension
+        if isinstance(node.func, ast.Name) and node.func.id in ('list', 'set') and len(node.args) == 1 and not node.keywords and isinstance(node.args[0], ast.GeneratorExp):
+            g = node.args[0]
+            cls_ = ast.ListComp if node.func.id == 'list' else ast.SetComp
+            self.counts['list_of_genexp'] = self.counts.get('list_of_genexp', 0) + 1
+            return ast.copy_location(cls_(elt=g.elt, generators=g.generators), node)
         # N33: map(itemgetter(k), X) / map(lambda t: E, X) over one iterable is the generator expression (t[k] for t in X) / (E for t in X)
         if isinstance(node.func, ast.Name) and node.func.id == 'map' and len(node.args) == 2 and not node.keywords and not isinstance(node.args[1], ast.Starred):
             fn, it = node.args
@@ -1050,7 +1056,7 @@ def counting_while_to_for(tree):
                             and isinstance(inc.value, ast.Constant) and inc.value.value == 1):
                         continue
                     body = w.body[:-1]
-                    if any(isinstance(n, (ast.Continue, ast.Break, ast.Return, ast.Yield, ast.YieldFrom)) for b in body for n in ast.walk(b)):
+                    if any(isinstance(n, (ast.Continue, ast.Break, ast.Return)) for b in body for n in ast.walk(b)):
                         continue
                     stored = {n.id for b in body for n in ast.walk(b) if isinstance(n, ast.Name) and isinstance(n.ctx, (ast.Store, ast.Del))}
                     bound_names = {n.id for n in ast.walk(bound) if isinstance(n, ast.Name)}
